@@ -112,3 +112,32 @@ def Op.inDomain : Op α → Bool
   | _ => true
 
 end SetM
+
+/-! ## JSON / YAML encodings (`MarshalJSON/UnmarshalJSON/MarshalYAML/UnmarshalYAML`)
+
+`Marshal*` hand `Slice()` to the list codec; `Unmarshal*` decode a list and `Add` it to the
+receiver.  The codec for lists of `T` (encoding/json, yaml.v3) is a parameter. -/
+namespace SetM
+variable {α : Type} [DecidableEq α]
+
+/-- an external list codec: `enc` of a possibly-nil slice, `dec` failing with `none` -/
+structure Codec (α δ : Type) where
+  enc : Option (List α) → δ
+  dec : δ → Option (List α)
+
+/-- the law the element codec has to satisfy: decoding the encoding of a (possibly nil) slice
+yields its elements -/
+def Codec.RoundTrips {δ : Type} (c : Codec α δ) : Prop := ∀ l, c.dec (c.enc l) = some (l.getD [])
+
+def marshal {δ : Type} (c : Codec α δ) (s : S α) : δ := c.enc (slice s)
+
+/-- `none` = the decoder returned an error (target untouched) -/
+def unmarshal {δ : Type} (c : Codec α δ) (tgt : S α) (d : δ) : Option (S α) :=
+  match c.dec d with
+  | none => none
+  | some l => some (add tgt l).1
+
+/-- shape of the encoding: `none` = null, `some n` = a sequence of `n` items -/
+def encShape (s : S α) : Option Nat := (slice s).map List.length
+
+end SetM
